@@ -54,7 +54,7 @@ type Downstream struct {
 	lastIssuedUpstreamInfoAlias uint32                           // 最後に払い出されたアップストリーム情報のエイリアス
 	lastIssuedAckSequenceNumber uint32                           // 最後に払い出されたAckのシーケンス番号
 
-	wireConn *wire.ClientConn
+	wireConn atomic.Pointer[wire.ClientConn] // replaced on resume while other goroutines read it
 	// connGeneration is connStatus.Reconnects() at the time wireConn was obtained.
 	connGeneration uint64
 	idAlias        uint32
@@ -130,7 +130,7 @@ func (d *Downstream) closeWithError(ctx context.Context, cause error) (err error
 		}
 	}
 
-	resp, err := d.wireConn.SendDownstreamCloseRequest(ctx, &message.DownstreamCloseRequest{
+	resp, err := d.wireConn.Load().SendDownstreamCloseRequest(ctx, &message.DownstreamCloseRequest{
 		StreamID: d.ID,
 	})
 	if err != nil {
@@ -196,7 +196,7 @@ func (d *Downstream) ReadMetadata(ctx context.Context) (*DownstreamMetadata, err
 	case <-ctx.Done():
 		return nil, ctx.Err()
 	case meta := <-d.metadataCh:
-		if err := d.wireConn.SendDownstreamMetadataAck(ctx, &message.DownstreamMetadataAck{
+		if err := d.wireConn.Load().SendDownstreamMetadataAck(ctx, &message.DownstreamMetadataAck{
 			RequestID:    meta.RequestID,
 			ResultCode:   message.ResultCodeSucceeded,
 			ResultString: "OK",
@@ -336,7 +336,7 @@ func (d *Downstream) flushAck() error {
 	d.dataIDAckBuffer = make(map[uint32]*message.DataID)
 	d.resultAckBuffer = make([]*message.DownstreamChunkResult, 0)
 
-	return d.wireConn.SendDownstreamDataPointsAck(d.ctx, ack)
+	return d.wireConn.Load().SendDownstreamDataPointsAck(d.ctx, ack)
 }
 
 func (d *Downstream) ackCompleteOrDone(ctx context.Context) <-chan *message.DownstreamChunkAckComplete {
@@ -544,28 +544,29 @@ func (d *Downstream) resume(parentConn *Conn, generation uint64) error {
 	if !d.state.Is(streamStatusResuming) {
 		return fmt.Errorf("invalid state want[%v] but[%v]", streamStatusResuming, d.state)
 	}
-	d.wireConn = parentConn.wireConn
+	wireConn := parentConn.currentWireConn()
+	d.wireConn.Store(wireConn)
 
 	var resErr error
 	retry.Do(func() (end bool) {
-		dpsCh, err := d.wireConn.SubscribeDownstreamChunk(d.ctx, d.idAlias, d.Config.QoS)
+		dpsCh, err := wireConn.SubscribeDownstreamChunk(d.ctx, d.idAlias, d.Config.QoS)
 		if err != nil {
 			resErr = fmt.Errorf("failed to SubscribeDownstreamChunk: %w", err)
 			return true
 		}
-		ackCompCh, err := d.wireConn.SubscribeDownstreamChunkAckComplete(d.ctx, d.idAlias)
+		ackCompCh, err := wireConn.SubscribeDownstreamChunkAckComplete(d.ctx, d.idAlias)
 		if err != nil {
 			resErr = fmt.Errorf("failed to SubscribeDownstreamChunkAckComplete: %w", err)
 			return true
 		}
 
-		metaCh, err := parentConn.subscribeDownstreamMetadata(d.ctx, d.idAlias, d.Config.Filters)
+		metaCh, err := parentConn.subscribeDownstreamMetadata(d.ctx, wireConn, d.idAlias, d.Config.Filters)
 		if err != nil {
 			resErr = fmt.Errorf("failed to subscribeDownstreamMetadata: %w", err)
 			return true
 		}
 
-		resp, err := d.wireConn.SendDownstreamResumeRequest(d.ctx, &message.DownstreamResumeRequest{
+		resp, err := wireConn.SendDownstreamResumeRequest(d.ctx, &message.DownstreamResumeRequest{
 			StreamID:             d.ID,
 			DesiredStreamIDAlias: d.idAlias,
 		})
